@@ -6,6 +6,7 @@ require (
 	github.com/formancehq/go-libs/v5 v5.6.1
 	github.com/formancehq/ledger v0.0.0
 	github.com/jackc/pgx/v5 v5.9.2
+	github.com/sirupsen/logrus v1.9.4
 	github.com/uptrace/bun v1.2.18
 	github.com/uptrace/bun/dialect/pgdialect v1.2.18
 	go.opentelemetry.io/otel/trace v1.43.0
@@ -103,7 +104,6 @@ require (
 	github.com/riandyrn/otelchi v0.12.2 // indirect
 	github.com/shomali11/util v0.0.0-20220717175126-f0771b70947f // indirect
 	github.com/shomali11/xsql v0.0.0-20190608141458-bf76292144df // indirect
-	github.com/sirupsen/logrus v1.9.4 // indirect
 	github.com/spf13/pflag v1.0.10 // indirect
 	github.com/stoewer/go-strcase v1.3.1 // indirect
 	github.com/stretchr/testify v1.12.0 // indirect
